@@ -117,8 +117,8 @@ def firstNamed : Nat := 57346
 
 /-- What the generated parser makes of a rune that `Lex` returns as its own token value
     (`pathlex1`): `pathTok1` for runes below 126, `pathTok2` for runes from `pathPrivate` on —
-    so the private-use runes U+E002 … U+E031 are *taken for the named tokens* —, `$unk` otherwise
-    (U+E000, U+E001 and U+E032 map to `error`, `$unk`, `UMINUS`, which no state shifts). -/
+    the private-use runes U+E002 … U+E031 would be *taken for the named tokens*, which is why
+    `Lex` refuses the whole range (`isPrivateTokenRune`) —, `$unk` otherwise. -/
 def tokOfRune (c : Char) : Tok :=
   let n := c.toNat
   if n = 36 then .dollar else if n = 37 then .percent else if n = 40 then .lparen
@@ -129,6 +129,17 @@ def tokOfRune (c : Char) : Tok :=
   else if n = 125 then .rbrace
   else if firstNamed ≤ n && n < firstNamed + kwTable.length then kwTable.getD (n - firstNamed) .unk
   else .unk
+
+/-- `pathPrivate` -/
+def pathPrivate : Nat := 57344
+
+/-- `len(pathTok2)`: `error`, `$unk`, the 48 named tokens, `UMINUS` -/
+def pathTok2Len : Nat := 51
+
+/-- `ch >= pathPrivate && ch < pathPrivate+rune(len(pathTok2))`: the runes U+E000 … U+E032, which
+    `Lex` reports as invalid characters instead of handing them to the parser -/
+def isPrivateTokenRune (c : Char) : Bool :=
+  pathPrivate ≤ c.toNat && c.toNat < pathPrivate + pathTok2Len
 
 /-! ## Lexer state and `next` -/
 
@@ -277,7 +288,10 @@ def decodeUnicode (s : LState) : Option Nat × LState :=
       | some d => fixedDigits 3 d s1
   match r with
   | none => (none, s2)
-  | some rr => if rr = 0 then (none, setErr s2) else (some rr, s2)
+  | some rr =>
+    if rr > 0x10FFFF then (none, setErr s2)          -- `rr > unicode.MaxRune`
+    else if rr = 0 then (none, setErr s2)
+    else (some rr, s2)
 
 /-- result of an escape: the next look-ahead rune (`none` = `stopTok`) and the rune to append -/
 structure EscR where
@@ -324,8 +338,9 @@ def scanHex (s : LState) : EscR :=
       if d > 0 then let (c, s3) := next s2; ⟨c, some (Char.ofNat d), s3⟩
       else ⟨none, none, setErr s2⟩
 
-/-- `scanEscape` applied to the string buffer `buf` (kept reversed).  When the rune after the
-    escape is `stopTok` the buffer is reset — also when that is simply the end of the input. -/
+/-- `scanEscape` applied to the string buffer `buf` (kept reversed).  The buffer is reset when the
+    rune after the escape is `stopTok` *and* an error is on record (`ch == stopTok && l.hasError()`);
+    at the plain end of the input the text scanned so far is kept. -/
 def scanEscape (buf : List Char) (s : LState) : Option Char × List Char × LState :=
   let (ch, s1) := next s
   let r : EscR :=
@@ -342,10 +357,10 @@ def scanEscape (buf : List Char) (s : LState) : Option Char × List Char × LSta
       else if c = 'x' then scanHex s1
       else if c = 'u' then scanUnicode s1
       else simple c
+  let buf' := match r.out with | some x => x :: buf | none => buf
   match r.ch with
-  | none => (none, [], r.st)
-  | some c' =>
-    (some c', (match r.out with | some x => x :: buf | none => buf), r.st)
+  | none => if r.st.err then (none, [], r.st) else (none, buf', r.st)
+  | some c' => (some c', buf', r.st)
 
 /-! ## Scanners -/
 
@@ -606,6 +621,10 @@ def lexFrom : Nat → Option Char → LState → ScanR
         match ch1 with
         | some d => if isDecimal d then scanNumber o d true ['.'] s1 else ⟨.dot, ['.'], ch1, s1⟩
         | none => ⟨.dot, ['.'], ch1, s1⟩
+      else if isPrivateTokenRune c then
+        -- `l.next(); l.errorf("invalid character %q", ch); tok, ch = stopTok, stopTok`
+        let (_, s1) := next s
+        ⟨.stop, [], none, setErr s1⟩
       else scanOperator c s
 
 /-- `(*lexer).Lex`: token, `lval.str`, new state -/
